@@ -17,6 +17,8 @@ from .scalars import R, C, SB
 _SIMP = dict(som=True, arith_lhs=True, hoist_mul=False)
 
 
+import os as _os
+_DUMP = _os.environ.get("SYMX_DUMP_QUERY")
 _SIMP_TACTIC = None
 SIMP_TIMEOUT_MS = 4000
 
@@ -244,12 +246,30 @@ class Prover:
                 o.status, o.stage = "unsat", "solver-free"
                 self._sample(o, s)
                 return
+        if c.pc and (c.assumptions or c.defined):
+            # the path condition alone often implies the goal (e.g. an ordering decided by argsort): fewer
+            # constraints being unsat implies the full query is unsat
+            s = _ctx.mk_solver(min(self.timeout_ms, 1500))
+            for a in c.pc:
+                s.add(a)
+            s.add(negated_goal)
+            t0 = time.time()
+            r = s.check()
+            self.solver_time += time.time() - t0
+            self.n_solver += 1
+            if r == z3.unsat:
+                o.status, o.stage = "unsat", "solver-pc"
+                self._sample(o, s)
+                return
         s = _ctx.mk_solver(self.timeout_ms)
         for a in bc:
             s.add(a)
         for a in axs:
             s.add(a)
         s.add(negated_goal)
+        if _DUMP:
+            with open(_DUMP, "w") as f:
+                f.write(s.to_smt2())
         t0 = time.time()
         r = s.check()
         self.solver_time += time.time() - t0
@@ -259,17 +279,21 @@ class Prover:
         elif r == z3.sat:
             o.status, o.stage = "sat", "solver-full"
             o.model = model_env(s.model(), c)
-            # prefer a well-conditioned witness (|v| <= 8) for the replay in floating point
-            s.push()
+            # prefer a well-conditioned witness (|v| <= 8) for the replay in floating point; fresh solver
+            # (an incremental push/pop would leave z3's QF_NRA procedure and ignore the timeout)
+            s2 = _ctx.mk_solver(3000)
+            for a in bc:
+                s2.add(a)
+            for a in axs:
+                s2.add(a)
+            s2.add(negated_goal)
             for name, t in c.symbols.items():
                 if z3.is_real(t):
-                    s.add(t <= 8, t >= -8)
+                    s2.add(t <= 8, t >= -8)
             for w in getattr(c, "witness_prefs", []):
-                s.add(w)
-            s.set("timeout", 3000)
-            if s.check() == z3.sat:
-                o.model = model_env(s.model(), c)
-            s.pop()
+                s2.add(w)
+            if s2.check() == z3.sat:
+                o.model = model_env(s2.model(), c)
         else:
             o.status, o.stage = "unknown", "solver-full:" + str(s.reason_unknown())[:60]
         self._sample(o, s)
@@ -284,24 +308,22 @@ class Prover:
     def _path_model(self):
         """A (boxed, if possible) model of assumptions + path condition, for concrete failures."""
         c = self.c
-        s = _ctx.mk_solver(3000)
         bc = c.base_constraints()
-        for a in bc:
-            s.add(a)
-        for a in _ax.instances(bc, c):
-            s.add(a)
-        s.push()
-        for name, t in c.symbols.items():
-            if z3.is_real(t):
-                s.add(t <= 8, t >= -8)
-        for w in getattr(c, "witness_prefs", []):
-            s.add(w)
-        r = s.check()
-        if r != z3.sat:
-            s.pop()
-            r = s.check()
-        if r == z3.sat:
-            return model_env(s.model(), c)
+        axs = list(_ax.instances(bc, c))
+        for boxed in (True, False):
+            s = _ctx.mk_solver(3000)
+            for a in bc:
+                s.add(a)
+            for a in axs:
+                s.add(a)
+            if boxed:
+                for name, t in c.symbols.items():
+                    if z3.is_real(t):
+                        s.add(t <= 8, t >= -8)
+                for w in getattr(c, "witness_prefs", []):
+                    s.add(w)
+            if s.check() == z3.sat:
+                return model_env(s.model(), c)
         return {}
 
     # -------------------------------------------------------------------------------- vacuity
